@@ -28,7 +28,8 @@ CONSTANTS W,            \* workers 0..W-1
           RoundRobinStuck,      \* FALSE (NEG) next not advanced after a dispatch
           ConnErrIsFatal,       \* FALSE (NEG) aborted/reset/refused treated like EMFILE
           WakeSkipsAcceptAll,   \* FALSE (NEG) WorkerAvailable only sets the bit
-          PauseKeepsRegistered  \* FALSE (NEG)
+          PauseKeepsRegistered, \* FALSE (NEG)
+          RejoinPausedNoAvail   \* FALSE (NEG) a replacement handle that arrives during a pause is stored but not marked available
 
 Workers   == 0..(W - 1)
 Listeners == 1..L
@@ -295,7 +296,7 @@ APop ==
                            THEN UNCHANGED <<apc, ret, cur, tokLeft>> ELSE EnterAcceptAll
                       /\ UNCHANGED <<handles, paused, running, registered, edge, pathOk, lstTimer, pauseEffective>>
                  [] m[1] = "WK" ->
-                      /\ avail' = [avail EXCEPT ![m[2]] = TRUE]
+                      /\ avail' = (IF RejoinPausedNoAvail /\ paused THEN avail ELSE [avail EXCEPT ![m[2]] = TRUE])
                       /\ handles' = Append(handles, m[2])
                       /\ IF paused THEN UNCHANGED <<apc, ret, cur, tokLeft>> ELSE EnterAcceptAll
                       /\ UNCHANGED <<paused, running, registered, edge, pathOk, lstTimer, pauseEffective>>
